@@ -3,6 +3,7 @@ package main
 import (
 	"verif/internal/effects"
 	"verif/internal/report"
+	"verif/internal/yacc"
 )
 
 // Rules added after the third round of seeded changes (this file's init runs after props_zz.go's).
@@ -78,4 +79,13 @@ func init() {
 	extendProp("C05", pw, pwF, func(c *Ctx) { c.positionWritersRule() })
 	extendProp("C07", tw, twF, func(c *Ctx) { c.tokenWritersRule() })
 	extendProp("C10", pw, pwF, func(c *Ctx) { c.positionWritersRule() })
+	extendProp("C10", "prec-oracle on both grammars: operators the two languages share group alike only if both precedence tables agree with the one oracle (seed C10-7: '.' moved below '+' in the PHP 7 grammar only). newline-symmetry: the shared scanner's version-dependent helpers treat LF and CR alike (seed C10-9).",
+		[]report.Floor{{Rule: "prec-oracle", What: "operators", Min: 80}},
+		func(c *Ctx) {
+			defer c.cleanup()
+			c.grammarRule("prec-oracle", yacc.PrecOracle)
+			c.scanRun("newline-symmetry")
+		})
+	extendProp("C03", "newline-symmetry: a valid program is valid with either line ending (seed C03-9: heredoc end test that accepts only LF after the label).",
+		nil, func(c *Ctx) { defer c.cleanup(); c.scanRun("newline-symmetry") })
 }
